@@ -2012,9 +2012,8 @@ class Surface(SplineGeometry):
         # Re-evaluate vertex coordinates (vertex uv values are fractions of the parametric domain)
         dom = self.domain
         for idx in range(len(self._tsl_component.vertices)):
-            uv = self._tsl_component.vertices[idx].uv
-            if not utilities.check_params(uv):
-                continue
+            # uv values are accumulated sums and can overshoot the unit square by a rounding error (1.0000000000000002)
+            uv = [min(max(p, 0.0), 1.0) for p in self._tsl_component.vertices[idx].uv]
             param = [d[0] + (p * (d[1] - d[0])) for p, d in zip(uv, dom)]
             self._tsl_component.vertices[idx].data = self.evaluate_single(param)
 
